@@ -230,6 +230,7 @@ impl ToPrimitiveExt for BigUint {
 /// num_traits::CheckedSub -- marker only: `diff`/`checked_diff` are the sole users and are instantiated at i64
 pub trait CheckedSub: Sized {}
 impl CheckedSub for i64 {}
+impl CheckedSub for u64 {}
 
 /// num_integer::Integer (the methods the crate uses)
 pub trait NumInteger: Sized {
@@ -549,6 +550,24 @@ pub fn split_first_or_zero<'a>(s: &'a [u8]) -> (ret: (&'a u8, &'a [u8]))
             s@.len() == 0 ==> *ret.0 == 48u8 && ret.1@.len() == 0
 { unimplemented!() }
 
+
+/// R6: `fill_slice(&mut v[..n], c)` (the crate's helper over `&mut [T]`; Verus has no mutable sub-slice borrow)
+#[verifier::external_body]
+pub fn fill_prefix(v: &mut Vec<u8>, n: usize, c: u8)
+    requires n <= old(v)@.len()
+    ensures final(v)@.len() == old(v)@.len(),
+            forall|i: int| 0 <= i < n ==> final(v)@[i] == c,
+            forall|i: int| n <= i < old(v)@.len() ==> final(v)@[i] == old(v)@[i]
+{ unimplemented!() }
+
+/// R6: `v.copy_within(..a, idx)`
+#[verifier::external_body]
+pub fn copy_prefix_within(v: &mut Vec<u8>, a: usize, idx: usize)
+    requires a <= old(v)@.len(), idx + a <= old(v)@.len()
+    ensures final(v)@.len() == old(v)@.len(),
+            forall|i: int| 0 <= i < a ==> final(v)@[idx + i] == old(v)@[i],
+            forall|i: int| 0 <= i < old(v)@.len() && !(idx <= i < idx + a) ==> final(v)@[i] == old(v)@[i]
+{ unimplemented!() }
 
 // ------------------------------------------------------------------ std
 pub assume_specification<T> [<[T]>::split_last] (s: &[T]) -> (ret: Option<(&T, &[T])>)
